@@ -491,6 +491,41 @@ class Canon:
                                 and not any(isinstance(y, (ast.Call, ast.Lambda, ast.Starred)) for y in ast.walk(st.value)):
                             tabs[(owner, st.targets[0].id)] = st.value
             self._tables[key] = tabs
+        dtabs = self._dict_tables.get(key) if hasattr(self, "_dict_tables") else None
+        if dtabs is None:
+            if not hasattr(self, "_dict_tables"):
+                self._dict_tables = {}
+            dtabs = {}
+            tree = getattr(f.module, "tree", None)
+            if tree is not None:
+                stores, mut = {}, set()
+                for x in ast.walk(tree):
+                    if isinstance(x, ast.Name) and isinstance(x.ctx, (ast.Store, ast.Del)):
+                        stores[x.id] = stores.get(x.id, 0) + 1
+                    elif isinstance(x, ast.Subscript) and isinstance(x.ctx, (ast.Store, ast.Del)) and isinstance(x.value, ast.Name):
+                        mut.add(x.value.id)
+                    elif isinstance(x, ast.Call) and isinstance(x.func, ast.Attribute) and x.func.attr in MUTATORS and isinstance(x.func.value, ast.Name):
+                        mut.add(x.func.value.id)
+                for st in tree.body:
+                    if isinstance(st, ast.Assign) and len(st.targets) == 1 and isinstance(st.targets[0], ast.Name) and isinstance(st.value, ast.Dict) and 1 <= len(st.value.keys) <= 12 \
+                            and stores.get(st.targets[0].id, 0) == 1 and st.targets[0].id not in mut \
+                            and all(isinstance(k, ast.Constant) for k in st.value.keys) \
+                            and all(isinstance(v, ast.Constant) or (isinstance(v, ast.UnaryOp) and isinstance(v.operand, ast.Constant)) for v in st.value.values):
+                        dtabs[st.targets[0].id] = {k.value: v for k, v in zip(st.value.keys, st.value.values)}
+            self._dict_tables[key] = dtabs
+        if dtabs:
+            # TABLE['key'] with a literal key of a module-level literal dict of constants (never stored to) is the constant
+            bound = {x.id for x in ast.walk(node) if isinstance(x, ast.Name) and isinstance(x.ctx, (ast.Store, ast.Del))} | {a.arg for a in ast.walk(node) if isinstance(a, ast.arg)}
+
+            class D(ast.NodeTransformer):
+                def visit_Subscript(self, n):
+                    self.generic_visit(n)
+                    if isinstance(n.ctx, ast.Load) and isinstance(n.value, ast.Name) and n.value.id in dtabs and n.value.id not in bound and isinstance(n.slice, ast.Constant) \
+                            and n.slice.value in dtabs[n.value.id]:
+                        return ast.copy_location(copy.deepcopy(dtabs[n.value.id][n.slice.value]), n)
+                    return n
+
+            node = D().visit(node)
         if not tabs:
             return node
         local = {x.id for x in ast.walk(node) if isinstance(x, ast.Name) and isinstance(x.ctx, (ast.Store, ast.Del))} | {a.arg for a in ast.walk(node) if isinstance(a, ast.arg)}
@@ -888,6 +923,7 @@ class Canon:
                 node = self._close(node)
         node = _adjacent_def_use(node)
         node = self._close(node)
+        node = self._with_tables(f, node)   # (a table key that was a parameter of a written-out helper is a literal now)
         node = _Small().visit(node)
         # nested multi-statement defs: their own single-assignment locals
         for sub in [x for x in ast.walk(node) if isinstance(x, ast.FunctionDef) and x is not node]:
@@ -1531,7 +1567,8 @@ class _Small(ast.NodeTransformer):
                 continue
             if isinstance(st, ast.Assign) and len(st.targets) == 1 and isinstance(st.targets[0], ast.Tuple) and isinstance(st.value, ast.Tuple) \
                     and len(st.targets[0].elts) == len(st.value.elts) and all(isinstance(t, (ast.Name, ast.Attribute)) for t in st.targets[0].elts) \
-                    and not ({txt(t) for t in st.targets[0].elts} & {txt(x) for v in st.value.elts for x in ast.walk(v) if isinstance(x, (ast.Name, ast.Attribute))}):
+                    and not any(txt(st.targets[0].elts[i_]) in {txt(x) for x in ast.walk(st.value.elts[j_]) if isinstance(x, (ast.Name, ast.Attribute))}
+                                for j_ in range(len(st.value.elts)) for i_ in range(j_)):   # (a later value must not read an earlier target: `a, X = X, []` is `a = X; X = []`)
                 for t, v in zip(st.targets[0].elts, st.value.elts):
                     out.append(ast.copy_location(ast.Assign(targets=[t], value=v, lineno=st.lineno), st))
                 continue
@@ -1904,12 +1941,26 @@ def close_paths(fn):
                 elif isinstance(n, ast.arg):
                     stores[n.arg] = stores.get(n.arg, 0) + 2
         sel = {}
+        # (a path that is *rebound* in the function - `self._x = []` - is not written out: the local keeps the object the path named before)
+        rebound, last_use = {}, {}
+        for st, order, loops, in_try, body, i in table:
+            if isinstance(st, (ast.Assign, ast.AugAssign)):
+                for t in (st.targets if isinstance(st, ast.Assign) else [st.target]):
+                    for t2 in (t.elts if isinstance(t, ast.Tuple) else [t]):
+                        if isinstance(t2, ast.Attribute):
+                            rebound.setdefault(txt(t2), []).append((order, loops))
+            for n in _own_nodes(st):
+                if isinstance(n, ast.Name) and isinstance(n.ctx, ast.Load):
+                    last_use[n.id] = (max(last_use.get(n.id, (-1, ()))[0], order), tuple(set(last_use.get(n.id, (-1, ()))[1]) | set(loops)))
         for k, v in value.items():
             e = v
             while isinstance(e, ast.Attribute):
                 e = e.value
             if stores.get(k) == 1 and loads.get(k, 0) > 0 and isinstance(v, ast.Attribute) and isinstance(e, ast.Name) and e.id in ("self", "cls"):
-                sel[k] = v
+                lu, lloops = last_use.get(k, (-1, ()))
+                # every use of the local comes before the first rebinding of the path (and does not share a loop with it)
+                if all(lu < o and not (set(l) & set(lloops)) for o, l in rebound.get(txt(v), [])):
+                    sel[k] = v
         if not sel:
             break
         fn = _Drop(sel).visit(fn)
